@@ -15,6 +15,7 @@ import JSV.Proofs.MshFacts
 import JSV.Proofs.MshTree
 import JSV.Proofs.IsoValid
 import JSV.Proofs.RefineCheck
+import JSV.Proofs.ResIsoNorm
 namespace JSV.C05
 open JSV Go
 
@@ -367,6 +368,95 @@ theorem treeEq_validate_same_partial {d : Nat} {a b : NodeId} (env₁ env₂ : G
     Iso.treeEq_meaning hte hfree hst₁ (Refine.specEnvOf env₁) (Refine.specEnvOf env₂) hd hre fuel inst hinst
   exact Iso.same_verdict_of_outSim h (Refine.validate_refines_spec_root env₁ hwf₁ hst₁ fuel a inst hinst)
     (Refine.validate_refines_spec_root env₂ hwf₂ hst₂ fuel b inst hinst) hdec
+
+/-! ## the tree read back means the same (trees WITH references: both sides resolved) -/
+
+theorem orderOK_of_nodeOK (n : Node) (h : Go.nodeOK n = true) : Go.RIso.orderOK n = true := by
+  simp only [Go.nodeOK, Bool.and_eq_true] at h
+  have hm : Go.basicChecksOk n = true := h.1.1.1.1.1.1.1.1.1.1.1.1.1
+  rw [Go.basicChecksOk_eq] at hm
+  simp only [Bool.and_eq_true] at hm
+  exact hm.1.2
+
+/-- `treeEq_resolves_partial`: **Resolve commutes with the JSON round trip** (self-contained resolution: no Loader, or
+    a Loader that hands out no document — `Go.RIso.NoDocs`).  `b` in `st'` is the tree read back from the well-formed
+    tree below `a` in `st` (`Go.TreeEq`); the maps of `st` have distinct keys (`Go.RPerm.StoreKeysNodup`: they are Go
+    maps; decidable, `Go.RPerm.keysNodupB`); both stores are smaller than the model's nil id 10^9.  If `Resolve` of `a`
+    returns normally and checkStructure accepts `b`, then `Resolve` of `b` — same options, same base URI, same fuel —
+    returns normally, with the same draft and the same Loader log, and every instance (without duplicate keys) gets Spec
+    results from the two that agree up to the order in which evaluated property names are listed — in particular the same
+    verdict — with every amount of fuel, whatever `$ref` / `$dynamicRef` / `$id` / `$anchor` / `$dynamicAnchor` the tree
+    contains.  Every normal form of `Go.normNode` is invisible to Resolve: the nil-vs-empty ones and the fields it does
+    not read (`Go.RIso.rnode_preNorm`; an empty `$vocabulary` / `$defs` coming back as nil only REMOVES a reason for
+    checkLocal to fail, which is why the statement is directional), the order of the maps (`resolve_perm_invariant`,
+    C14), the rebuilt children (`Go.RIso.resolve_rel`, the simulation of the resolver along a renaming of node ids).
+    PARTIAL in one respect: "checkStructure accepts `b`" — i.e. the tree read back is a tree, every JSON object having
+    been decoded into a fresh `Schema` — is assumed, not derived from the model of UnmarshalJSON (for CloneSchemas the
+    corresponding fact is proved: `C20.clone_is_tree`). -/
+theorem treeEq_resolves_partial (st st' : Store) (env : Go.Env) (hnd : Go.RIso.NoDocs env)
+    (hk : Go.RPerm.StoreKeysNodup st) (hs : st.size ≤ 1000000000) (hs' : st'.size ≤ 1000000000) {a b : NodeId} {d : Nat}
+    (hte : Go.TreeEq st st' d a b) (hwf : Go.treeAll Go.nodeOK st d a = true) (fuel : Nat) (base : String)
+    (rs : Go.Resolved) (h₁ : Go.resolve { env with st := st } fuel a base = .ok rs) (f' : Nat)
+    (fresh' : List (NodeId × Go.Info)) (hcs : Go.checkStructure st' f' [(b, "")] [] = .ok fresh') :
+    ∃ rs', Go.resolve { env with st := st' } fuel b base = .ok rs' ∧ rs.draft = rs'.draft ∧ rs.log = rs'.log ∧
+      ∀ (reMatch : String → String → Bool) (vfuel : Nat) (inst : Json), Json.WF inst = true →
+        Inv.OutSim (Spec.evalFuel (Go.RIso.specOf st rs reMatch) vfuel [] a inst)
+            (Spec.evalFuel (Go.RIso.specOf st' rs' reMatch) vfuel [] b inst) ∧
+          Spec.valid (Go.RIso.specOf st rs reMatch) vfuel a inst =
+            Spec.valid (Go.RIso.specOf st' rs' reMatch) vfuel b inst := by
+  obtain ⟨rs', h₂, e1, e2, e3⟩ := Go.RIso.treeEq_resolves st st' env hnd hk hs hs' hte
+    (Go.treeAll_imp orderOK_of_nodeOK hwf) fuel base h₁ hcs
+  exact ⟨rs', h₂, e1, e2, fun reMatch vfuel inst hinst =>
+    ⟨e3 reMatch vfuel inst hinst, Iso.valid_of_outSim (e3 reMatch vfuel inst hinst)⟩⟩
+
+/-- `treeEq_meaning`: two trees equal up to the normal forms of the round trip (`Go.TreeEq`), EACH RESOLVED ON ITS OWN
+    (self-contained: `NoDocs`; same options, base URI and fuel), have the same draft and Loader log and accept the same
+    instances: Spec results that agree up to the order of the evaluated-property list, the same verdict, with every
+    amount of fuel.  No hypothesis on `$ref` / `$dynamicRef`. -/
+theorem treeEq_meaning (st st' : Store) (env : Go.Env) (hnd : Go.RIso.NoDocs env)
+    (hk : Go.RPerm.StoreKeysNodup st) (hs : st.size ≤ 1000000000) (hs' : st'.size ≤ 1000000000) {a b : NodeId} {d : Nat}
+    (hte : Go.TreeEq st st' d a b) (hwf : Go.treeAll Go.nodeOK st d a = true) (fuel : Nat) (base : String)
+    (rs rs' : Go.Resolved) (h₁ : Go.resolve { env with st := st } fuel a base = .ok rs)
+    (h₂ : Go.resolve { env with st := st' } fuel b base = .ok rs') :
+    rs.draft = rs'.draft ∧ rs.log = rs'.log ∧
+      ∀ (reMatch : String → String → Bool) (vfuel : Nat) (inst : Json), Json.WF inst = true →
+        Inv.OutSim (Spec.evalFuel (Go.RIso.specOf st rs reMatch) vfuel [] a inst)
+            (Spec.evalFuel (Go.RIso.specOf st' rs' reMatch) vfuel [] b inst) ∧
+          Spec.valid (Go.RIso.specOf st rs reMatch) vfuel a inst =
+            Spec.valid (Go.RIso.specOf st' rs' reMatch) vfuel b inst := by
+  obtain ⟨fresh', hcs⟩ := Go.RIso.resolve_ok_cs { env with st := st' } fuel b base rs' h₂
+  obtain ⟨rs'', h₂', e1, e2, e3⟩ := treeEq_resolves_partial st st' env hnd hk hs hs' hte hwf fuel base rs h₁ _ fresh' hcs
+  rw [h₂] at h₂'
+  cases h₂'
+  exact ⟨e1, e2, e3⟩
+
+/-- **`roundtrip_tree_meaning`** (C05, no carve-out on references).  For a well-formed tree (`TreeWF`) in a store
+    whose maps have distinct keys: whatever MarshalJSON writes, UnmarshalJSON reads back — into any store `st₂` — as a
+    tree `id'` such that, whenever the original and the tree read back are EACH RESOLVED ON ITS OWN (self-contained
+    resolution, same options, same base URI, stores below the nil id), they have the same draft and Loader log and accept
+    exactly the same instances (the same verdict; Spec results equal up to the order of the evaluated-property list),
+    with every amount of fuel — trees with `$ref` / `$dynamicRef` / `$id` / `$anchor` / `$dynamicAnchor` included.
+    That `Resolve` of the tree read back does return normally when `Resolve` of the original does is
+    `treeEq_resolves_partial` (up to: the tree read back is accepted by checkStructure). -/
+theorem roundtrip_tree_meaning (st : Store) (id : NodeId) (j : Json) (st₂ : Store)
+    (hwf : TreeWF st id) (hj : Go.marshal st id = .ok j) (hk : Go.RPerm.StoreKeysNodup st)
+    (hs : st.size ≤ 1000000000) (env : Go.Env) (hnd : Go.RIso.NoDocs env) :
+    ∃ id' st₂', Go.unmarshal j st₂ = .ok (id', st₂') ∧
+      ∀ (fuel : Nat) (base : String) (rs rs' : Go.Resolved), st₂'.size ≤ 1000000000 →
+        Go.resolve { env with st := st } fuel id base = .ok rs →
+        Go.resolve { env with st := st₂' } fuel id' base = .ok rs' →
+        rs.draft = rs'.draft ∧ rs.log = rs'.log ∧
+          ∀ (reMatch : String → String → Bool) (vfuel : Nat) (inst : Json), Json.WF inst = true →
+            Inv.OutSim (Spec.evalFuel (Go.RIso.specOf st rs reMatch) vfuel [] id inst)
+                (Spec.evalFuel (Go.RIso.specOf st₂' rs' reMatch) vfuel [] id' inst) ∧
+              Spec.valid (Go.RIso.specOf st rs reMatch) vfuel id inst =
+                Spec.valid (Go.RIso.specOf st₂' rs' reMatch) vfuel id' inst := by
+  obtain ⟨id', st₂', hu, hte, -⟩ := roundtrip_tree st id j st₂ hwf hj
+  have hok : Go.treeAll Go.nodeOK st (st.size + 2) id = true :=
+    Go.treeAll_mono (Go.treeAll_mono (Go.treeAll_imp
+      (fun n hn => by simp only [Go.nodeWF, Bool.and_eq_true] at hn; exact hn.1) hwf))
+  exact ⟨id', st₂', hu, fun fuel base rs rs' hs' h₁ h₂ =>
+    treeEq_meaning st st₂' env hnd hk hs hs' hte hok fuel base rs rs' h₁ h₂⟩
 
 /-! ### What is missing for the full round trip
   * `roundtrip_tree_meaning` (the two trees accept the same instances) is proved for reference-free trees only
